@@ -213,7 +213,8 @@ class ForcePlatformsDataBlock(Block):
             raise ValueError("platform must be a ForcePlatformData instance")
 
         if channel is None:
-            channel = max(self._plat_map) + 1 if len(self._plat_map) else 0
+            # (the map is stored as unsigned 16 bit integers)
+            channel = u16.free_channel(self._plat_map)
         if channel in self._plat_map:
             raise ValueError(f"Channel {channel} already in use")
         self._plat_map.append(channel)
